@@ -7,7 +7,7 @@ import CalVerif.Lemmas.SharedFormula
 namespace C15
 open SharedFormula
 open FormulaTokens (Tok letter colLetters dec dollar renderTok render shiftTok shift move identChar
-  cellLike firstChar endsRun notCallOrSheet inSheet tokWF wf WF)
+  cellLike firstChar endsRun notCallOrSheet inSheet tokWF wf WF bracketScan)
 
 /-- **ref_shift**: offsetting a single rendered reference moves exactly its relative components
     (the `$` components stay), provided the reference and its image lie in the sheet. -/
@@ -36,11 +36,18 @@ theorem translate_go (toks : List Tok) (d : Int × Int) (h : WF toks d) :
     cases t with
     | punct c =>
       simp only [tokWF, Bool.and_eq_true, Bool.not_eq_true', bne_iff_ne, ne_eq] at ht
-      obtain ⟨⟨h1, h2⟩, h3⟩ := ht
+      obtain ⟨⟨⟨h1, h2⟩, h3⟩, h4⟩ := ht
       simp only [render, renderTok, List.length_append, List.length_cons, List.length_nil] at hf ⊢
       obtain ⟨f', rfl⟩ : ∃ f', f = f' + 1 := ⟨f - 1, by omega⟩
-      rw [List.singleton_append, replaceGo_punct d f' c _ (by rw [← identChar_eq]; exact h1) h2 h3, ih f' (by omega)]
+      rw [List.singleton_append, replaceGo_punct d f' c _ (by rw [← identChar_eq]; exact h1) h2 h3 h4, ih f' (by omega)]
       rfl
+    | struct s =>
+      simp only [tokWF, beq_iff_eq] at ht
+      simp only [render, renderTok, List.length_append, List.length_cons, List.length_nil] at hf ⊢
+      obtain ⟨f', rfl⟩ : ∃ f', f = f' + 1 := ⟨f - 1, by omega⟩
+      have e : ('[' :: s ++ [']']) ++ render ts = '[' :: (s ++ ']' :: render ts) := by simp
+      rw [e, replaceGo_bracket d f' s _ ht, ih f' (by omega)]
+      simp [pre, shift, render, renderTok, shiftTok]
     | str s =>
       simp only [tokWF, Bool.not_eq_true'] at ht
       have hs : ∀ x ∈ s, x ≠ '"' := by
@@ -64,7 +71,7 @@ theorem translate_go (toks : List Tok) (d : Int × Int) (h : WF toks d) :
         obtain ⟨f', rfl⟩ : ∃ f', f = f' + 2 := ⟨f - 2, by omega⟩
         have e : ('\'' :: n ++ ['\'', '!']) ++ render ts = '\'' :: (n ++ '\'' :: ('!' :: render ts)) := by simp
         rw [e, replaceGo_quoted d (f' + 1) '\'' n _ (Or.inr rfl) hs,
-          replaceGo_punct d f' '!' _ (by decide) (by decide) (by decide), ih f' (by omega)]
+          replaceGo_punct d f' '!' _ (by decide) (by decide) (by decide) (by decide), ih f' (by omega)]
         simp [pre, shift, render, renderTok, shiftTok]
       | false =>
         simp only [tokWF, Bool.and_eq_true, Bool.not_eq_true', List.all_eq_true] at ht
@@ -78,7 +85,7 @@ theorem translate_go (toks : List Tok) (d : Int × Int) (h : WF toks d) :
         obtain ⟨f', rfl⟩ : ∃ f', f = f' + 2 := ⟨f - 2, by omega⟩
         rw [List.append_assoc, replaceGo_run d (f' + 1) n _ hne' (fun x hx => by rw [← identChar_eq]; exact hall x hx)
           (by intro x hx; simp at hx; subst hx; decide)]
-        rw [runOut_call d n _ rfl, List.singleton_append, replaceGo_punct d f' '!' _ (by decide) (by decide) (by decide), ih f' (by omega)]
+        rw [runOut_call d n _ rfl, List.singleton_append, replaceGo_punct d f' '!' _ (by decide) (by decide) (by decide) (by decide), ih f' (by omega)]
         simp [pre, shift, render, renderTok, shiftTok]
     | ident s =>
       simp only [tokWF, Bool.and_eq_true, Bool.not_eq_true', List.all_eq_true, Bool.or_eq_true] at ht
@@ -159,6 +166,17 @@ theorem strings_opaque (q : Char) (hq : q = '"' ∨ q = '\'') (s rest : List Cha
     simp only [List.length_cons, List.length_append]; omega
   unfold replaceCellNames
   rw [hlen, replaceGo_quoted d _ q s rest hq hs, replaceGo_fuel d _ rest (by omega)]
+  rfl
+
+/-- **structs_opaque**: a balanced bracketed span `[…]` (structured-reference specifier, workbook
+    index) is reproduced unchanged whatever it contains, and the text after it is translated as if it
+    stood alone. -/
+theorem structs_opaque (s rest : List Char) (d : Int × Int) (hs : bracketScan 0 s = some 0) :
+    replaceCellNames ('[' :: (s ++ ']' :: rest)) d = pre ('[' :: s ++ [']']) (replaceCellNames rest d) := by
+  have hlen : ('[' :: (s ++ ']' :: rest)).length = (s.length + rest.length + 1) + 1 := by
+    simp only [List.length_cons, List.length_append]; omega
+  unfold replaceCellNames
+  rw [hlen, replaceGo_bracket d _ s rest hs, replaceGo_fuel d _ rest (by omega)]
   rfl
 
 /-- **idents_unchanged**: a maximal run of identifier characters that does not look like a cell of
@@ -462,7 +480,15 @@ example : replaceCellNames "$A1+LOG10(A$1)&\"é A1\"+AB1!B2".toList (1, 1)
   have e2 : render (shift demoToks (1, 1)) = "$A2+LOG10(B$1)&\"é A1\"+AB1!C3".toList := by decide
   rw [e1, e2] at h; exact h
 
-/-- a cell-like identifier not followed by `(` or `!` is *not* well-formed (it is a reference) -/
+/-- structured references: the table name `Tbl1` (cell-like) and the specifier stay, `A1` moves -/
+example : replaceCellNames "Tbl1[[#This Row],[Q1]]+A1".toList (1, 1) = .ok "Tbl1[[#This Row],[Q1]]+B2".toList := by
+  let toks : List Tok := [.ident "Tbl1".toList, .struct "[#This Row],[Q1]".toList, .punct '+', .ref false 0 false 0]
+  have h := translate_correct toks (1, 1) (by decide)
+  have e1 : render toks = "Tbl1[[#This Row],[Q1]]+A1".toList := by decide
+  have e2 : render (shift toks (1, 1)) = "Tbl1[[#This Row],[Q1]]+B2".toList := by decide
+  rw [e1, e2] at h; exact h
+
+/-- a cell-like identifier not followed by `(`, `!` or `[` is *not* well-formed (it is a reference) -/
 example : ¬ WF [.ident "TAX2021".toList] (1, 0) := by decide
 
 /-- `member_formula` on the block `B1:C2` with master `B1` = `$A1+A$1`, read after the group `si = 1`
